@@ -133,9 +133,10 @@ Proof.
   set (kt := g_tr_kin_time ishift nmix timest) in *. set (save := g_tr_kin_time_save ishift nmix timest) in *.
   assert (Hks : kt == save) by (rewrite K1, K2; reflexivity).
   destruct (pre_shape cells kt save Hks) as (P1 & P2 & P3 & P4).
-  rewrite P1, P2. rewrite (adv_time_spec _ cells _ save c P4 Hc). rewrite P3.
+  rewrite P1, P2. rewrite (adv_time_spec _ cells _ save c P4 Hc).
   rewrite (Z.eqb_sym (g_tr_first_c ishift cells) c).
-  destruct (Z.eqb c (g_tr_first_c ishift cells)), (Z.ltb 1 cells); cbn [andb]; rewrite K1, K2; field; apply inject_nz; exact Hn.
+  pose proof (inject_nz nmix Hn) as NZ.
+  destruct (Z.eqb c (g_tr_first_c ishift cells)), (Z.ltb 1 cells); cbn [andb]; try rewrite P3; rewrite K1, K2; field; exact NZ.
 Qed.
 
 (* diffusion only: nmix >= 1 mixing runs of timest/nmix (nmix = 1: one run of timest) *)
